@@ -54,7 +54,9 @@ where
         });
       }
 
-      let items = Arc::clone(&items);
+      // the history that exists before this subscriber goes live; whatever the source emits while
+      // (and after) the live subscription is set up reaches the subscriber through the subject
+      let history = items.read().unwrap().clone();
       let was_error = Arc::clone(&was_error);
       let was_completed = Arc::clone(&was_completed);
 
@@ -65,17 +67,16 @@ where
       *sbsc.write().unwrap() = Some(
         utils::ready_set_go(
           move || {
-            // block until emitted for replay
-            let items = &items.read().unwrap();
-            let was_error = &*was_error.read().unwrap();
-            let was_completed = &*was_completed.read().unwrap();
-            items.iter().for_each(|x| {
+            // replay with no lock held: the subscriber may call back into this subject
+            let was_error = was_error.read().unwrap().clone();
+            let was_completed = *was_completed.read().unwrap();
+            history.iter().for_each(|x| {
               s.next(x.clone());
             });
-            if let Some(err) = &*was_error {
-              s.error(err.clone());
+            if let Some(err) = was_error {
+              s.error(err);
               return;
-            } else if *was_completed {
+            } else if was_completed {
               s.complete();
               return;
             }
